@@ -58,6 +58,11 @@ def main(argv: List[str]) -> int:
 
         return rename_main(args)
 
+    if args.target == "refactorfuzz":
+        from .selftest import refactor_main
+
+        return refactor_main(args)
+
     if args.target == "all":
         worst = 0
         for pid in CLAIMED:
